@@ -81,7 +81,7 @@ def gen_segments(rng, n, bs, rich):
     return ";".join(segs), acts
 
 
-def gen_stream(rng, quick, threads=None, bs=None, abort=None, n=None, kind=None, rich=True, big=False):
+def gen_stream(rng, quick, threads=None, bs=None, abort=None, n=None, kind=None, rich=True, big=False, fault=None, timeout=None):
     threads = threads or rng.choice((1, 2, 2, 3, 4, 4, 5, 6, 7, 8))
     if n is None:
         r = rng.random()
@@ -109,10 +109,13 @@ def gen_stream(rng, quick, threads=None, bs=None, abort=None, n=None, kind=None,
     flt = rng.choice((0, 0, 0, 1, 2, 3, 4, 6, 7)) if not big else rng.choice((1, 5))
     g, acts = gen_segments(rng, n, bs, rich)
     x = -1 if abort is None else abort
-    tok = "S:t%d,b%d,o%d,c%d,f%d,k%d,n%d,d%d,s%d,x%d,g%s" % (
-        threads, bs, rng.choice((0, 0, 0, 1, 1, 50)), rng.choice(CHECKS), flt, kind, n, rng.randrange(1, 1 << 30),
-        rng.randrange(1, 1 << 30), x, g)
-    return tok, dict(threads=threads, bs=bs, n=n, kind=kind, acts=acts, abort=x, flt=flt)
+    if fault is None and rng.random() < 0.10:          # allocation failure in a worker / in the main thread
+        fault = rng.choice(("a%d" % rng.choice((1, 2, 3, 5, 8, 13, 30)), "a%d,w%d" % (rng.randrange(1, 9), rng.choice((200, 2000))),
+                            "A%d" % rng.randrange(1, 25)))
+    tok = "S:t%d,b%d,o%d,c%d,f%d,k%d,n%d,d%d,s%d,x%d,%sg%s" % (
+        threads, bs, rng.choice((0, 0, 0, 1, 1, 50)) if timeout is None else timeout, rng.choice(CHECKS), flt, kind, n, rng.randrange(1, 1 << 30),
+        rng.randrange(1, 1 << 30), x, (fault + ",") if fault else "", g)
+    return tok, dict(threads=threads, bs=bs, n=n, kind=kind, acts=acts, abort=x, flt=flt, fault=fault or "")
 
 
 def sched_token(rng):
@@ -166,6 +169,43 @@ def gen_scenarios(ctx, count, controlled, tag):
             extra = " dump=1"
         line = "scn %s%d wd=90 %s%s %s" % (tag, i, st, extra, " ".join(streams))
         out.append((line, dict(cat=cat, sched=sname, streams=infos, dump=dump)))
+    return out
+
+
+def fault_scenarios(ctx, controlled, tag):
+    """Allocation failures inside worker threads (Block encoder initialisation) and in the main thread (get_thread, Index):
+    the stream must end with LZMA_MEM_ERROR and never hang. The first shape is the one that needs thread_error in the wait
+    predicate of wait_for_work(): all input handed over with FINISH / FULL_FLUSH, timeout 0, then the worker fails."""
+    rng = ctx.rng
+    out = []
+    n1 = 60 if ctx.quick() else 300
+    for i in range(n1):
+        th = rng.choice((1, 1, 2, 3, 4))
+        bs = rng.choice((4096, 8192, 65536))
+        n = rng.randrange(1, bs)                      # a single Block, handed over completely before the worker can fail
+        act = rng.choice(("F", "F", "f"))
+        g = "%d%s" % (n, act) if act == "F" else "%df;0F" % n
+        fault = "a%d" % rng.randrange(1, 7)
+        if not controlled and rng.random() < 0.5:
+            fault += ",w%d" % rng.choice((200, 1000, 5000))
+        streams = ["S:t%d,b%d,o0,c%d,f%d,k%d,n%d,d%d,s%d,x-1,%s,g%s" % (th, bs, rng.choice(CHECKS), rng.choice((0, 1, 2, 4)), rng.choice((0, 1, 3)), n,
+                                                                      rng.randrange(1, 1 << 30), rng.randrange(1, 1 << 30), fault, g)]
+        infos = [dict(threads=th, bs=bs, n=n, kind=1, acts=[act], abort=-1, flt=0, fault=fault)]
+        if rng.random() < 0.5:                         # the handle must be reusable after the error
+            t2, i2 = gen_stream(rng, True, threads=rng.choice((th, 2)), n=rng.randrange(0, 20000), fault="")
+            streams.append(t2); infos.append(i2)
+        st, sname = sched_token(rng) if controlled else pert_token(rng)
+        out.append(("scn %sw%d wd=60 %s %s" % (tag, i, st, " ".join(streams)), dict(cat="fault-worker-after-handover", sched=sname, streams=infos, dump=False)))
+    for i in range(n1):
+        ns = rng.choice((1, 1, 2))
+        streams, infos = [], []
+        for j in range(ns):
+            fault = rng.choice(("a%d" % rng.randrange(1, 40), "A%d" % rng.randrange(1, 40), "a%d" % rng.randrange(1, 10)))
+            t, inf = gen_stream(rng, True, n=rng.randrange(1, 60000), fault=fault if (j == 0 or rng.random() < 0.5) else "",
+                                abort=None if rng.random() < 0.8 else rng.choice((1, 3, 6)), timeout=rng.choice((0, 0, 1)))
+            streams.append(t); infos.append(inf)
+        st, sname = sched_token(rng) if controlled else pert_token(rng)
+        out.append(("scn %sf%d wd=60 %s %s" % (tag, i, st, " ".join(streams)), dict(cat="fault-any", sched=sname, streams=infos, dump=False)))
     return out
 
 
@@ -477,6 +517,8 @@ def run_batch(ctx, exe, scen, variant, env=None, label=""):
                 ctx.count("action:" + {"r": "RUN", "f": "FULL_FLUSH", "b": "FULL_BARRIER", "F": "FINISH"}[a])
             if s["abort"] >= 0:
                 ctx.count("abandoned-stream")
+            if s.get("fault"):
+                ctx.count("fault:" + ("worker-allocation" if s["fault"].startswith("a") else "main-allocation"))
     if skipped:
         ctx.count("skipped-after-repeated-process-deaths", skipped)
     ctx.log("%s: %d scenarios on %s/%s in %.1fs, %d not ok%s" % (label, len(lines), variant, os.path.basename(exe), time.time() - t, bad,
@@ -491,6 +533,8 @@ def merge(a, b):
 
 def run(ctx):
     quick = ctx.quick()
+    ctx.assumptions.append("fault injection: a failing lzma_allocator (k-th allocation of a worker thread / of the main thread inside lzma_code) on the test handle; "
+                           "such runs must end with LZMA_MEM_ERROR, never hang, and free everything at lzma_end")
     ctx.cov["rule"] = ("scenario lines generated from the seeded PRNG: 1-4 streams on one lzma_stream handle (re-init with same/different thread "
                        "count, abandoned after k lzma_code calls, early lzma_end), each with threads 1..8, block_size from 1 byte to > input, "
                        "timeout 0/1/50 ms, 4 check types, 8 filter chains (incl. delta/BCJ/preset path), inputs empty/incompressible/text/zeros/"
@@ -527,10 +571,10 @@ def run(ctx):
     agg = {}
     n_ctrl = 4000 if quick else 14000
     n_real = 1200 if quick else 4000
-    scen = regression_scenarios(ctx, True, "rs") + gen_scenarios(ctx, n_ctrl, True, "s")
+    scen = regression_scenarios(ctx, True, "rs") + fault_scenarios(ctx, True, "fs") + gen_scenarios(ctx, n_ctrl, True, "s")
     a, bad1 = run_batch(ctx, exe_s, scen, "asan", env, "controlled scheduler")
     merge(agg, a)
-    scen_r = regression_scenarios(ctx, False, "rp") + gen_scenarios(ctx, n_real, False, "p")
+    scen_r = regression_scenarios(ctx, False, "rp") + fault_scenarios(ctx, False, "fp") + gen_scenarios(ctx, n_real, False, "p")
     broken_badly = bad1 > 40      # already refuted many times over: do not spend watchdog periods on real-scheduling hangs
     if broken_badly:
         ctx.log("more than 40 failing scenarios under the controlled scheduler: skipping the real-scheduling, TSan and trace batches")
@@ -553,7 +597,7 @@ def run(ctx):
                 ctx.obligation_broken("stage B: C08 harness does not compile (tsan)", log)
             else:
                 tenv = {"TSAN_OPTIONS": "halt_on_error=1:second_deadlock_stack=1:report_signal_unsafe=0:history_size=4"}
-                scen_t = regression_scenarios(ctx, False, "rt") + gen_scenarios(ctx, 2000, False, "t")
+                scen_t = regression_scenarios(ctx, False, "rt") + fault_scenarios(ctx, False, "ft") + gen_scenarios(ctx, 2000, False, "t")
                 a, bad3 = run_batch(ctx, texe_p, scen_t, "tsan", tenv, "ThreadSanitizer, real scheduling")
                 tsan_info = {"scenarios": len(scen_t), "not_ok": bad3}
                 merge(agg, a)
@@ -572,7 +616,8 @@ def trace_inclusion(ctx, exe_s, env):
     """Harness lines with ev=1 print the H3 event trace; the model driver must accept every trace and agree on the observables."""
     n = 800 if ctx.quick() else 4000
     scen = gen_scenarios(ctx, n, True, "e")
-    lines = [l.replace(" S:", " ev=1 S:", 1).replace(" dump=1", "") for l, _ in scen]
+    # (fault-injection runs are judged by the direct oracle only: threads_stop() on the error path is one atomic step in the model)
+    lines = [re.sub(r",(a\d+,w\d+|[aA]\d+),g", ",g", l.replace(" S:", " ev=1 S:", 1).replace(" dump=1", "")) for l, _ in scen]
     parts = vlib.chunks(list(range(len(lines))), vlib.NCPU * 2)
     res_parts = vlib.par_map(lambda idx: run_lines_resilient(exe_s, [lines[i] for i in idx], env=env), parts)
     mexe = vlib.model_exe("xzm_c08")
